@@ -534,4 +534,87 @@ theorem procDelta_congr (gen gen' : C03.Gen) (v : C03.Srv) (r : DReq) (o : POut)
           simpa using hc
         rw [h2]
 
+/-! ## Generator errors and the returned error -/
+
+def noErrs : Ty → Bool := fun _ => false
+
+/-- Without failing generators the error-aware handlers are the handlers above. -/
+theorem procSotwE_refines (gen : C03.Gen) (v : C03.Srv) (r : Req) :
+    (procSotwE false noErrs gen v r).map (·.out) = procSotw gen v r ∧
+    (procSotwE true noErrs gen v r).map (·.out) = procSotwGrpc gen v r := by
+  unfold procSotwE procSotw procSotwGrpc
+  cases h : shouldRespond v.st r with
+  | crash => exact ⟨rfl, rfl⟩
+  | out b sub s' => cases b <;> simp [noErrs]
+
+theorem pushAllSotwE_refines (gen : C03.Gen) (v : C03.Srv) (ts : List Ty) :
+    (pushAllSotwE noErrs gen v ts).out = pushAllSotwC gen v ts := by
+  induction ts generalizing v with
+  | nil => rfl
+  | cons t ts ih =>
+    unfold pushAllSotwE pushAllSotwC
+    simp only [noErrs, Bool.false_and, Bool.false_eq_true, if_false]
+    cases hf : (C03.pushSotwOne gen v t []).2.2
+    · simp only [Bool.false_eq_true, if_false, ih]
+    · simp
+
+theorem procDeltaE_refines (gen : C03.Gen) (v : C03.Srv) (r : DReq) :
+    (procDeltaE noErrs gen v r).map (·.out) = procDelta gen v r := by
+  unfold procDeltaE procDelta
+  cases h : shouldRespondDelta v.st r with
+  | crash => rfl
+  | out b s' =>
+    cases b
+    · rfl
+    · simp only [noErrs, Bool.false_and, Bool.false_eq_true, if_false]
+      split <;> rfl
+
+theorem pushAllDeltaE_refines (gen : C03.Gen) (v : C03.Srv) (ts : List Ty) :
+    (pushAllDeltaE noErrs gen v ts).out = pushAllDeltaC gen v ts := by
+  induction ts generalizing v with
+  | nil => rfl
+  | cons t ts ih =>
+    unfold pushAllDeltaE pushAllDeltaC
+    simp only [noErrs, Bool.false_and, Bool.false_eq_true, if_false]
+    cases hf : (C03.pushDeltaOne gen v t [] []).2.2
+    · simp only [Bool.false_eq_true, if_false, ih]
+    · simp
+
+/-- **A SotW handler that returns an error has sent nothing** (failing generator or failed send): the caller ends
+    the stream with no response of this request on the wire. -/
+theorem procSotwE_error_sent_nothing (grpc : Bool) (errs : Ty → Bool) (gen : C03.Gen) (v : C03.Srv) (r : Req) (o : POutE)
+    (ho : procSotwE grpc errs gen v r = some o) (he : o.err = true) : o.out.sent = [] := by
+  unfold procSotwE at ho
+  cases h : shouldRespond v.st r with
+  | crash => simp [h] at ho
+  | out b sub s' =>
+    cases b
+    · simp only [h, Option.some.injEq] at ho; subst ho; rfl
+    · simp only [h] at ho
+      generalize hs : (if grpc = true then [] else sub) = sub' at ho
+      by_cases hc : (errs r.ty && !(askedSotw s' r.ty sub').toList.isEmpty) = true
+      · rw [if_pos hc] at ho; injection ho with ho; subst ho; rfl
+      · rw [if_neg hc] at ho; injection ho with ho
+        subst ho
+        -- the send failed: pushSotwOne reports no response
+        simp only at he ⊢
+        cases hw : s' r.ty with
+        | none => rw [pushSotwOne_none gen _ r.ty sub' (by simpa using hw)] at he; cases he
+        | some w =>
+          rw [pushSotwOne_some gen { v with st := s' } r.ty sub' w (by simpa using hw)] at he ⊢
+          split at he
+          · cases he
+          · split at he
+            · simp_all
+            · cases he
+
+/-- A failing generator is called and its error returned, with nothing sent and the watch table as classified. -/
+theorem procSotwE_generator_error (grpc : Bool) (errs : Ty → Bool) (gen : C03.Gen) (v : C03.Srv) (r : Req)
+    (sub : List String) (s' : State) (h : shouldRespond v.st r = .out true sub s') (he : errs r.ty = true) :
+    ∃ c, procSotwE grpc errs gen v r =
+      some { out := { srv := { v with st := s' }, sent := [], calls := [c] }, err := true } ∧ c.1 = r.ty := by
+  obtain ⟨w, hw, _, _⟩ := responded_state_clean v.st r sub s' h
+  refine ⟨(r.ty, C03.narrowedSotw w.names (if grpc then [] else sub)), ?_, rfl⟩
+  simp [procSotwE, h, he, askedSotw, hw]
+
 end IstioModel.C04
